@@ -50,6 +50,12 @@ def programs(draw, max_len=25):
                        "param": draw(st.sampled_from([False, False, True]))})
     if not any(l["rg"] for l in leaves):
         leaves[draw(st.integers(0, k - 1))]["rg"] = True
+    if k >= 2 and draw(st.integers(0, 3)) == 0:
+        # one leaf is copy-constructed from another (Tensor(t) / nn.Parameter(t)): two objects, two leaves of the
+        # graph, equal values - each receives its own derivative
+        j = draw(st.integers(1, k - 1))
+        i = draw(st.integers(0, j - 1))
+        leaves[j] = dict(leaves[i], copy_of=i, copy_kind=draw(st.sampled_from(["Tensor", "Parameter"])), param=False)
     n = draw(st.integers(4, max_len))
     instrs = [{"op": draw(st.sampled_from(ALL_OPS)), "a": draw(OPERAND), "b": draw(OPERAND),
                "p": draw(st.integers(0, 11)), "q": draw(st.integers(0, 11))} for _ in range(n)]
@@ -274,6 +280,11 @@ def execute(case, ssa, order, leaf_arrays, track, rg=None):
     k = len(case["leaves"])
     nodes = {}
     for i in range(k):
+        src = case["leaves"][i].get("copy_of")
+        if src is not None and track and np.array_equal(leaf_arrays[i], leaf_arrays[src]):
+            # (only in the tracked run: the finite-difference runs perturb the two leaves independently)
+            nodes[i] = (Tensor if case["leaves"][i]["copy_kind"] == "Tensor" else sg.nn.Parameter)(nodes[src])
+            continue
         nodes[i] = Tensor(np.array(leaf_arrays[i], dtype=np.float64), requires_grad=bool(track and rg[i]))
         if case["leaves"][i].get("param"):
             nodes[i] = sg.nn.Parameter(nodes[i])      # a Tensor subclass must behave like a Tensor in any position
